@@ -482,6 +482,63 @@ def mode_blocked(data):
                 ev.set()
                 if bad:
                     out["mismatches"].append({"depth": depth, "managers": nm, "mode": mode, "bad": bad})
+    # a thread blocked INSIDE a manager's __exit__, with other managers of the same frame still active around it
+    for nouter in (0, 1, 2):
+        ev, ready = threading.Event(), threading.Event()
+
+        class BlockingExit:
+            def __bool__(self):
+                return False
+
+            def __enter__(self):
+                return self
+
+            def __exit__(self, *a):
+                ready.set()
+                ev.wait(TIMEOUT)
+                return False
+        outers = [CM(k) for k in range(nouter)]
+        inner = BlockingExit()
+
+        def holder():
+            if nouter == 0:
+                with inner:
+                    pass
+            elif nouter == 1:
+                with outers[0]:
+                    with inner:
+                        pass
+            else:
+                with outers[0], outers[1]:
+                    with inner:
+                        pass
+        t = threading.Thread(target=holder, daemon=True)
+        t.start()
+        ready.wait(TIMEOUT)
+        time.sleep(0.01)
+        with warnings.catch_warnings(record=True) as wl:
+            warnings.simplefilter("always")
+            st = stackscope.extract(t)
+        out["n"] += 1
+        bad = []
+        hf = [f for f in st.frames if f.funcname == "holder"]
+        if len(hf) != 1:
+            bad.append("frames %s" % [f.funcname for f in st.frames])
+        else:
+            got = [(c.obj, bool(c.is_exiting)) for c in hf[0].contexts]
+            want = [(m, False) for m in outers] + [(inner, True)]
+            if len(got) != len(want) or any(g[0] is not w[0] or g[1] != w[1] for g, w in zip(got, want)):
+                bad.append("thread blocked in __exit__ with %d outer managers: contexts %s, expected the outer managers and then the "
+                           "exiting one with its manager as obj" % (nouter, [(type(o).__name__, e) for o, e in got]))
+            names = [f.funcname for f in st.frames]
+            if "__exit__" not in names:
+                bad.append("the __exit__ frame is missing: %s" % names)
+        if st.error is not None or [w for w in wl if issubclass(w.category, RuntimeWarning)]:
+            bad.append("error %r / warnings" % (st.error,))
+        ev.set()
+        t.join(TIMEOUT)
+        if bad:
+            out["mismatches"].append({"depth": 1, "managers": nouter + 1, "mode": "blocked in __exit__", "bad": bad})
     return out
 
 
